@@ -65,6 +65,8 @@ type Prog struct {
 	// (an implementation that reorganises a scope every so many operations reaches that point
 	// inside the concurrent phase)
 	Warm []int `json:"warm,omitempty"`
+	// Ext: the shared scope has an external lookup attached (it serves the one name "xe", with value 99)
+	Ext bool `json:"ext,omitempty"`
 }
 
 // delnearPair reports the names n for which the program has the shape of the DeleteGlobal
@@ -141,7 +143,9 @@ func withName(l []string, n string) []string {
 	return out
 }
 
-var opKinds = []string{"define", "define", "set", "set", "get", "get", "delete", "delnear", "deftype", "type", "copy", "deepcopy", "syms", "tsyms", "string", "cget", "cset", "caddr", "ctype"}
+// eget / ceget: Get of the name "xe", which no table ever binds and which the external lookup attached to
+// the shared scope (Prog.Ext) serves with a fixed value: on the shared scope itself, through its child.
+var opKinds = []string{"define", "define", "set", "set", "get", "get", "delete", "delnear", "deftype", "type", "copy", "deepcopy", "syms", "tsyms", "string", "cget", "cset", "caddr", "ctype", "eget", "ceget"}
 
 func genSubset(t *rapid.T, label string, pNum int) []string {
 	var out []string
@@ -164,6 +168,7 @@ func genProg(t *rapid.T, withString bool) Prog {
 		counts := []int{0, 1, 2, 3, 6, 7, 8, 14, 15, 16, 17, 30, 31, 32, 62, 63, 64}
 		p.Warm = []int{rapid.SampledFrom(counts).Draw(t, "warmdel"), rapid.SampledFrom(counts[:8]).Draw(t, "warmsyms"), rapid.SampledFrom(counts[:8]).Draw(t, "warmcopy")}
 	}
+	p.Ext = rapid.Bool().Draw(t, "ext")
 	nt := rapid.IntRange(2, 3).Draw(t, "threads")
 	next := 10
 	for i := 0; i < nt; i++ {
@@ -233,7 +238,7 @@ func validProg(p Prog) error {
 				if nameIdx(op.N) < 0 {
 					return fmt.Errorf("bad op %v", op)
 				}
-			case "copy", "deepcopy", "syms", "tsyms", "string":
+			case "copy", "deepcopy", "syms", "tsyms", "string", "eget", "ceget":
 			default:
 				return fmt.Errorf("unknown op kind %q", op.K)
 			}
@@ -273,10 +278,12 @@ func valID(v interface{}) string {
 // 0 = name absent, otherwise the id bound.
 type state struct {
 	cv, ct, pv, pt [3]int
+	ext            bool // the shared scope has the external lookup attached
 }
 
 func initState(p Prog) state {
 	var s state
+	s.ext = p.Ext
 	for _, n := range p.ChildVals {
 		s.cv[nameIdx(n)] = 1 + nameIdx(n)
 	}
@@ -342,6 +349,12 @@ func apply(s state, op Op) (state, string) {
 			return s, "unaddressable"
 		}
 		return s, "undefined"
+	case "eget", "ceget":
+		// answered from outside the tables: the state plays no part (s.ext is set when the lookup is attached)
+		if s.ext {
+			return s, "v99"
+		}
+		return s, "err"
 	case "get", "cget":
 		if s.cv[i] != 0 {
 			return s, "v" + strconv.Itoa(s.cv[i])
@@ -407,6 +420,9 @@ func build(p Prog) world {
 	}
 	for _, n := range p.ChildTypes {
 		w.shared.DefineReflectType(n, typeTab[1+nameIdx(n)])
+	}
+	if p.Ext {
+		w.shared.SetExternalLookup(oneName{})
 	}
 	w.child = w.shared.NewEnv()
 	if len(p.Warm) == 3 {
@@ -496,9 +512,32 @@ func stringUsable() bool {
 }
 
 // execOp runs one operation on the shared scope and renders its result like apply does.
+// oneName is an external lookup that serves the value name "xe" and nothing else.
+type oneName struct{}
+
+func (oneName) Get(name string) (reflect.Value, error) {
+	if name == "xe" {
+		return reflect.ValueOf(99), nil
+	}
+	return reflect.Value{}, fmt.Errorf("undefined symbol '%s'", name)
+}
+func (oneName) Type(name string) (reflect.Type, error) {
+	return nil, fmt.Errorf("undefined type '%s'", name)
+}
+
 func execOp(w world, op Op) string {
 	e := w.shared
 	switch op.K {
+	case "eget", "ceget":
+		from := w.shared
+		if op.K == "ceget" {
+			from = w.child
+		}
+		v, err := from.Get("xe")
+		if err != nil {
+			return "err"
+		}
+		return "v" + valID(v)
 	case "cget":
 		v, err := w.child.Get(op.N)
 		if err != nil {
@@ -642,6 +681,8 @@ func touches(op Op) (reads, writes []string) {
 		return nil, []string{"v:" + op.N}
 	case "get", "cget", "caddr":
 		return []string{"v:" + op.N}, nil
+	case "eget", "ceget":
+		return []string{"v:xe"}, nil
 	case "deftype":
 		return nil, []string{"t:" + op.N}
 	case "type", "ctype":
